@@ -85,3 +85,18 @@ func (n *RaftNode) VRaft() *raft.Raft                      { return n.raft }
 func (n *RaftNode) VLeaveLeadership() error                { return n.leaveLeadership() }
 func (n *RaftNode) VForceSnapshot() error                  { return n.raft.Snapshot().Error() }
 func (n *RaftNode) VAppliedIndex() uint64                  { return n.raft.AppliedIndex() }
+
+// ---- state transfer: the leader side of FetchSnapshot with an in-memory stream (C09)
+type vStream struct {
+	grpcServerStream
+	buf []byte
+}
+
+func (s *vStream) Send(c *Chunk) error { s.buf = append(s.buf, c.Content...); return nil }
+
+// VFetch runs RaftNode.FetchSnapshot for a requester that reports lastApplied and asks for the WAL range (start, end].
+func (n *RaftNode) VFetch(lastApplied, start, end uint64) ([]byte, error) {
+	st := &vStream{}
+	err := n.FetchSnapshot(&FetchSnapshotRequest{LastAppliedVersion: lastApplied, StartSeqNum: start, EndSeqNum: end}, st)
+	return st.buf, err
+}
